@@ -473,8 +473,8 @@ class MainWiring(Contract):
     MIN_ARGS = {'PhaseSpace': 6}        # copies of the start grid (grid_t2, grid_t3) are not construction sites in this sense
     # free functions that build the start grid from a file: expected variable per argument
     EXPECT_CALLS = {
-        'makePSFromHDF5': ('start_grid.from_results_file', ['startdistfile', 'opts', 'qmin', 'qmax', 'pmin', 'pmax', 'oclh', 'Qb', 'Ib', 'bl', 'dE'], {'C10', 'C11'}),
-        'makePSFromTXT': ('start_grid.from_text_file', ['startdistfile', 'opts', 'qmin', 'qmax', 'pmin', 'pmax', 'oclh', 'Qb', 'Ib', 'bl', 'dE'], {'C10', 'C09'}),
+        'makePSFromHDF5': ('start_grid.from_results_file', ['startdistfile', ('opts', 'getStartDistStep'), 'qmin', 'qmax', 'pmin', 'pmax', 'oclh', 'Qb', 'Ib', 'bl', 'dE'], {'C10', 'C11'}),
+        'makePSFromTXT': ('start_grid.from_text_file', ['startdistfile', ('opts', 'getGridSize'), 'qmin', 'qmax', 'pmin', 'pmax', 'oclh', 'Qb', 'Ib', 'bl', 'dE'], {'C10', 'C09'}),
     }
 
     @staticmethod
@@ -536,6 +536,23 @@ class MainWiring(Contract):
                 best = max(found, key=lambda f_: sum(1 for a_, w_ in zip(f_, want) if a_ == w_))
                 diffs = [(i_, a_, w_) for i_, (a_, w_) in enumerate(zip(best + [None] * len(want), want)) if a_ != w_]
                 ob(label, not diffs, f'{cls}({", ".join(map(str, want))}, ...): ' + ('as expected' if not diffs else 'differs at ' + '; '.join(f'argument {i_ + 1}: {a_} instead of {w_}' for i_, a_, w_ in diffs)), tags)
+        const_locals = {x.get('name'): x for x in _walk(fn) if x.get('kind') == 'VarDecl' and x.get('inner') and 'const' in x.get('type', {}).get('qualType', '')}
+
+        def through_const_locals(a, want_):
+            """the argument's root variable, or -- if that is a const local initialised from a single variable -- what that one is
+            rooted in, as far as needed to reach the expected name (a value kept in `const T x = opts.getX();` is still opts' value);
+            an expected pair (variable, accessor) also asks for that accessor on the way"""
+            want_var, want_get = want_ if isinstance(want_, tuple) else (want_, None)
+            node, seen = a, set()
+            while True:
+                nm = self._argname(node)
+                getters = [x['inner'][0].get('name') for x in _walk(node) if x.get('kind') == 'CXXMemberCallExpr' and x['inner'][0].get('kind') == 'MemberExpr']
+                if nm == want_var and (want_get is None or want_get in getters):
+                    return want_
+                if not isinstance(nm, str) or nm in seen or nm not in const_locals:
+                    return nm if want_get is None or nm != want_var else (nm, getters[0] if getters else None)
+                seen.add(nm)
+                node = const_locals[nm]['inner'][-1]
         for fname, (label, want, tags) in self.EXPECT_CALLS.items():
             found = []
             for n in _walk(body(fn)):
@@ -544,7 +561,8 @@ class MainWiring(Contract):
                     while c_.get('kind') in ('ImplicitCastExpr', 'ParenExpr'):
                         c_ = c_['inner'][0]
                     if (c_.get('referencedDecl') or {}).get('name') == fname:
-                        found.append([self._argname(a) for a in n['inner'][1:] if a.get('kind') != 'CXXDefaultArgExpr'])
+                        real_ = [a for a in n['inner'][1:] if a.get('kind') != 'CXXDefaultArgExpr']
+                        found.append([through_const_locals(a, want[i_]) if i_ < len(want) else self._argname(a) for i_, a in enumerate(real_)])
             if len(found) != 1:
                 raise ExtractionError(f'main: {len(found)} calls of {fname}, contract knows 1')
             diffs = [(i_, a_, w_) for i_, (a_, w_) in enumerate(zip(found[0] + [None] * len(want), want)) if a_ != w_]
